@@ -48,3 +48,12 @@ From Signalo Require Base.Arith Model.Generic Proofs.Generic.
 Theorem C18_generic_hampel : forall thr s x, Signalo.Model.Generic.g_hampel_step Signalo.Proofs.Generic.Qcar Signalo.Model.Hampel.mad_factor thr s x = Signalo.Model.Hampel.hampel_step thr s x.
 Proof. exact Signalo.Proofs.Generic.gq_hampel. Qed.
 Print Assumptions C18_generic_hampel.
+
+(* No false alarm: the boolean reading of this property that the correspondence check evaluates on the IMPLEMENTATION's
+   outputs (Check/C18.v, verdict bit 2) can never fail on outputs that agree with the model (bit 1 clear); side conditions,
+   where there are any, are boolean and say which recorded observations the model comparison does not cover. *)
+From Coq Require Import NArith.
+From Signalo Require Base.Report Check.C18 Proofs.Sound_C18.
+Theorem C18_checker_no_false_alarm : forall c : Signalo.Check.C18.case, (1 <= Signalo.Check.C18.cN c)%nat -> N.land (Signalo.Base.Report.code (Signalo.Check.C18.check c)) 3 <> 2%N.
+Proof. exact Signalo.Proofs.Sound_C18.C18_check_sound. Qed.
+Print Assumptions C18_checker_no_false_alarm.
